@@ -100,7 +100,9 @@ pub struct PipeSummary {
     pub shutdown_ns: Option<u64>,
     pub write_calls: u64,
     pub partial_accepts: u64,
+    pub write_blocked_total_ns: u64,
     pub frame_ends: Vec<u64>,
+    pub avail: Vec<(u64, u64)>,
     #[serde(skip)]
     pub out: Vec<(u64, Vec<u8>)>,
 }
@@ -116,6 +118,7 @@ pub struct ConnOutcome {
     pub pipe: PipeSummary,
     pub faults: BTreeMap<String, u64>,
     pub probes: BTreeMap<String, u64>,
+    pub signals: BTreeMap<String, u64>,
     pub panics: Vec<String>,
     pub max_alloc: usize,
     pub end_ns: u64,
@@ -142,9 +145,7 @@ impl ConnOutcome {
             h.write_u64(e.t_ns);
             h.write_str(&e.actor);
             h.write_str(&e.kind);
-            if let Some(k) = e.detail.get("kind").and_then(|k| k.as_str()) {
-                h.write_str(k);
-            }
+            h.write_str(&e.detail.to_string());
         }
         for p in &self.view.packets {
             h.write_u64(p.t_ns);
@@ -177,6 +178,7 @@ pub fn variant_name(dbg: &str) -> String {
 
 pub fn new_runtime(seed: u64) -> tokio::runtime::Runtime {
     fastrand::seed(seed);
+    passage_protocol::verif::rng::seed_tokens(Some(seed ^ 0x7043_4b45_4e53));
     tokio::runtime::Builder::new_current_thread()
         .enable_time()
         .start_paused(true)
@@ -192,6 +194,15 @@ pub fn run_conn(sc: &ConnScenario) -> ConnOutcome {
     let out = rt.block_on(run_conn_async(sc));
     passage_protocol::verif::clock::set_wall(None);
     drop(rt);
+    if std::env::var("VERIF_DUMP").is_ok() {
+        eprintln!("--- run result={} {} done={:?} end={}", out.result, out.result_text, out.done_ns, out.end_ns);
+        for e in &out.log {
+            let d = e.detail.to_string();
+            eprintln!("  {:>4} {:>15} {:<16} {:<8} {}", e.seq, e.t_ns, e.actor, e.kind, &d[..d.len().min(160)]);
+        }
+        eprintln!("  sent: {:?}", out.view.sent.iter().map(|s| (s.t_ns, s.kind.clone(), s.start, s.end)).collect::<Vec<_>>());
+        eprintln!("  undecodable={:?} partial={} faults={:?} probes={:?} avail={:?}", out.view.undecodable, out.view.partial_at_eof, out.faults, out.probes, out.pipe.avail);
+    }
     out
 }
 
@@ -254,7 +265,8 @@ async fn run_conn_async(sc: &ConnScenario) -> ConnOutcome {
         .iter()
         .find(|e| e.actor == "server" && e.kind == "done")
         .map(|e| e.t_ns);
-    let st = client_end.st.lock().unwrap();
+    let mut st = client_end.st.lock().unwrap();
+    st.resolve_rest(&w.signals);
     ConnOutcome {
         result,
         result_text,
@@ -268,11 +280,14 @@ async fn run_conn_async(sc: &ConnScenario) -> ConnOutcome {
             shutdown_ns: st.shutdown_ns,
             write_calls: st.write_calls,
             partial_accepts: st.partial_accepts,
+            write_blocked_total_ns: st.write_blocked_total_ns,
             frame_ends: st.frame_ends.clone(),
+            avail: st.avail.clone(),
             out: st.out.clone(),
         },
         faults: w.faults.clone(),
         probes: w.probes.clone(),
+        signals: w.signals.clone(),
         panics: alloc::take_panics(),
         max_alloc: alloc::max_alloc(),
         end_ns: w.now_ns(),
